@@ -89,7 +89,7 @@ class FakeDevice:
             if kind not in ('erase', 'setaddr', 'write') or pg == -1 or (kind == 'write' and plen != PAGE):
                 kind = 'badaddr'
             self.cur = {'kind': kind, 'pg': pg, 'busy': list(sch.get('busy', self.default_busy)),
-                        'err': sch.get('err', 0) if kind in ('erase', 'write') else 0,
+                        'err': sch.get('err', 0) if kind in ('erase', 'write', 'setaddr') else 0,
                         'final_t': sch.get('final_t', 0)}
             self.state = 'dfuDNLOAD-SYNC'
             return len(data)
